@@ -238,6 +238,13 @@ def n1(ctx, res):
         pan.body.index(last_if[-1]) == len(pan.body) - 2
     res.check(ok_last, pan, "reserved names get a trailing '_' as the LAST transformation",
               reason="no later step can turn the result back into a reserved name")
+    # class-private name mangling: '_' is a kept character, so '__x' passes through unchanged unless handled
+    keeps_underscore = pred("_")
+    vpan = norm(pan.node)
+    handled = has("MV_n.startswith('__')", pan)
+    res.judge(True if (handled or not keeps_underscore) else False, pan, "names starting with '__' are rewritten",
+              reason="an attribute called __x is name-mangled to _Class__x inside a generated class body, so the generated "
+                     "class declares a different property than the parsed one")
     res.stat("kept_code_points", n_kept)
 
 
